@@ -33,7 +33,7 @@ logging.getLogger("onnx_ir").setLevel(logging.CRITICAL)
 NAMES5 = ["a", "b", "a", "<none>", "c"]
 CONSTS5 = [False, True, True, True, False]
 NOSHAPE = [-9]
-KINDS = ("np", "lazy", "packed", "proto", "string")
+KINDS = ("np", "lazy", "packed", "proto", "string", "npT")
 
 
 def _sn(name):
@@ -54,6 +54,8 @@ def make_tensor(kind: str):
         return ir.serde.TensorProtoTensor(tp)
     if kind == "string":
         return ir.StringTensor([b"x", b"yz"], shape=ir.Shape([2]))
+    if kind == "npT":
+        return ir.Tensor(np.arange(6, dtype=np.int16).reshape(3, 2).T)   # 2 x 3, Fortran-contiguous
     raise AssertionError(kind)
 
 
@@ -150,7 +152,7 @@ def _attr_of_kind(name: str, kind: int):
     if k == 6:
         return ir.AttrTensor(name, ir.Tensor(np.arange(6, dtype=np.int16).reshape(2, 3), name="const_t", doc_string="td"))
     if k == 7:
-        return ir.AttrTensors(name, [make_tensor("packed"), make_tensor("string"), make_tensor("lazy")])
+        return ir.AttrTensors(name, [make_tensor("packed"), make_tensor("string"), make_tensor("lazy"), make_tensor("npT")])
     if k == 8:
         return ir.AttrTypeProto(name, ir.TypeAndShape(ir.SequenceType(ir.TensorType(ir.DataType.BFLOAT16)), ir.Shape(["B", 2, None])))
     if k == 9:
@@ -632,7 +634,9 @@ def _tensor_payload(t):
     if t.dtype == ir.DataType.STRING:
         data = [bytes(x) for x in np.asarray(t.numpy()).ravel()]
     else:
-        data = t.tobytes()
+        # the bytes the tensor reports AND the element values in logical (row-major) order, taken without tobytes():
+        # a representation whose tobytes() is wrong must not vouch for itself
+        data = (t.tobytes(), np.ascontiguousarray(np.asarray(t.numpy())).tobytes())
     return (t.dtype.name, [str(d) for d in t.shape.dims], data, _none(t.doc_string), dict(t.metadata_props))
 
 
